@@ -177,11 +177,17 @@ class FQN:
                         return_value = find_obj(m, name)
                         if return_value is not None:
                             return return_value
+                # Only containment is followed: the `parent` link and
+                # non-containment references (which may or may not be
+                # resolved yet) do not contribute to a qualified name.
+                cls_attrs = getattr(type(parent), "_tx_attrs", {})
                 for attr in [
                     a
                     for a in parent.__dict__
                     if not a.startswith("__")
                     and not a.startswith("_tx_")
+                    and a != "parent"
+                    and not (a in cls_attrs and not cls_attrs[a].cont)
                     and not callable(getattr(parent, a))
                 ]:
                     obj = getattr(parent, attr)
